@@ -15,14 +15,14 @@ static const VpOp OPS[] = {
     {"prefetch_read<char>", {}, {SK_SMALL, SK_RAW, SK_OFF, SK_SMALL}, 1}, {"prefetch_read<int>", {}, {SK_SMALL, SK_RAW, SK_OFF, SK_SMALL}, 1}, {"prefetch_read<double>", {}, {SK_SMALL, SK_RAW, SK_OFF, SK_SMALL}, 1}, {"prefetch_read<64-byte struct>", {}, {SK_SMALL, SK_RAW, SK_OFF, SK_SMALL}, 1},
     {"prefetch_write<char>", {}, {SK_SMALL, SK_RAW, SK_OFF, SK_SMALL}, 1}, {"prefetch_write<int>", {}, {SK_SMALL, SK_RAW, SK_OFF, SK_SMALL}, 1}, {"prefetch_write<double>", {}, {SK_SMALL, SK_RAW, SK_OFF, SK_SMALL}, 1}, {"prefetch_write<64-byte struct>", {}, {SK_SMALL, SK_RAW, SK_OFF, SK_SMALL}, 1},
 };
-enum { CL_TOUCHES_GUARD, CL_INSIDE_GUARD, CL_NULL, CL_N_ZERO, CL_MISALIGNED_TYPED, CL_LAST_BYTE, CL_ORDINARY, CL_ADDRESS_SPACE_END };
-static const char* const CLASSES[] = {"range_reaches_into_inaccessible_page", "pointer_inside_inaccessible_page", "null_pointer", "n_zero", "misaligned_typed_pointer", "last_byte_before_inaccessible_page", "ordinary", "first_or_last_cache_line_of_the_address_space"};
+enum { CL_TOUCHES_GUARD, CL_INSIDE_GUARD, CL_NULL, CL_N_ZERO, CL_MISALIGNED_TYPED, CL_LAST_BYTE, CL_ORDINARY, CL_ADDRESS_SPACE_END, CL_HUGE };
+static const char* const CLASSES[] = {"range_reaches_into_inaccessible_page", "pointer_inside_inaccessible_page", "null_pointer", "n_zero", "misaligned_typed_pointer", "last_byte_before_inaccessible_page", "ordinary", "first_or_last_cache_line_of_the_address_space", "count_of_2MiB_16MiB_or_over_4GiB"};
 extern "C" const char* vp_property(void) { return "C20"; }
 extern "C" const VpOp* vp_ops(uint32_t* n) { *n = OP_COUNT; return OPS; }
-extern "C" const char* const* vp_class_names(uint32_t* n) { *n = 8; return CLASSES; }
+extern "C" const char* const* vp_class_names(uint32_t* n) { *n = 9; return CLASSES; }
 extern "C" const char* vp_rule(void) {
     return "a case is one prefetch_read / prefetch_write call (untyped or typed, cache level L1/L2/L3) with a pointer placed inside accessible memory, at the last byte before a PROT_NONE page, "
-           "inside the PROT_NONE page, null, misaligned, or in the first / last cache line of the address space (range ending at the last byte), and a count from 0 to three pages; any signal, any changed byte of the arena or any changed page protection fails; non-trivial = a range that "
+           "inside the PROT_NONE page, null, misaligned, or in the first / last cache line of the address space (range ending at the last byte), and a count from 0 to three pages (plus a few counts of 2 MiB, 16 MiB and just over 4 GiB); any signal, any changed byte of the arena or any changed page protection fails; non-trivial = a range that "
            "touches or lies inside an inaccessible page, a null pointer or n = 0; distinct = distinct hash of the Case";
 }
 extern "C" const VpTarget* vp_targets(uint32_t* n) { static VpTarget t = {"prefetch", 1, 8, 3, 1}; *n = 1; return &t; }
@@ -73,8 +73,14 @@ extern "C" void vp_run(const VpCase* c, VpOutcome* o) {
     const unsigned op = c->op;
     const unsigned place = (unsigned)(c->s[0] < 0 ? -c->s[0] : c->s[0]) % 10, off = (unsigned)(c->s[2] < 0 ? -c->s[2] : c->s[2]) % 64, lvl = (unsigned)(c->s[3] < 0 ? -c->s[3] : c->s[3]) % 3;
     const size_t esz = (op == OP_READ_T4 || op == OP_WRITE_T4) ? 4 : (op == OP_READ_T8 || op == OP_WRITE_T8) ? 8 : (op == OP_READ_T64 || op == OP_WRITE_T64) ? 64 : 1;
-    size_t nbytes = (size_t)((uint64_t)c->s[1] % (3 * g_page + 1));      // the loop is linear in n: bounded to three pages
+    size_t nbytes = (size_t)((uint64_t)c->s[1] % (3 * g_page + 1));      // the loop is linear in n: bounded to three pages in the bulk of the cases
     if (((uint64_t)c->s[1] >> 60) == 0xF) nbytes = 0;
+    // a few large counts (s1 tagged 0xE5A1 / 0xD5A1 / 0xC5A1 in its top 16 bits, so that random counts practically never are): just over 4 GiB (a 32-bit loop counter wraps), 16 MiB and just over 2 MiB
+    // (a count-dependent path); about 0.05 s per call for the largest
+    bool huge = false;
+    if (((uint64_t)c->s[1] >> 48) == 0xE5A1) { nbytes = ((size_t)1 << 32) + (size_t)((uint64_t)c->s[1] & 0xFFFF); huge = true; }
+    else if (((uint64_t)c->s[1] >> 48) == 0xD5A1) { nbytes = ((size_t)1 << 24) + (size_t)((uint64_t)c->s[1] & 0xFFF); huge = true; }
+    else if (((uint64_t)c->s[1] >> 48) == 0xC5A1) { nbytes = ((size_t)1 << 21) + (size_t)((uint64_t)c->s[1] & 0xFFF); huge = true; }
     size_t n = nbytes / esz;
     unsigned char* rw = g_arena + g_page;
     const unsigned char* p;
@@ -94,6 +100,7 @@ extern "C" void vp_run(const VpCase* c, VpOutcome* o) {
     }
     if (p && esz > 1 && ((uintptr_t)p % esz)) cls(CL_MISALIGNED_TYPED);
     if (n == 0) cls(CL_N_ZERO);
+    if (huge) cls(CL_HUGE);
     if (p && p >= rw && p < rw + 2 * g_page && p + n * esz > rw + 2 * g_page) cls(CL_TOUCHES_GUARD);
     if (nt) o->nontrivial = 1; else o->classes |= 1u << CL_ORDINARY;
     const bool write = (op == OP_WRITE_BYTES || op >= OP_WRITE_T1);
@@ -120,6 +127,17 @@ extern "C" void vp_enum(int tier, uint64_t seed, uint32_t shard, uint32_t nshard
     for (unsigned op = 0; op < OP_COUNT; ++op)
         for (unsigned place = 0; place < 10; ++place) {
             if ((job++ % nshards) != shard) continue;
+            if (place == 0 || place == 3 || place == 5) {
+                // large counts: from accessible memory (running far beyond it), from the line before the guard page, from null
+                for (unsigned lvl = 0; lvl < 3; ++lvl) for (uint64_t tagk : {0xEull, 0xDull, 0xCull}) {
+                    // a 4 GiB call issues 2^26 hints (seconds when the range is unmapped): the untyped overloads only, one level per placement
+                    // (all three in the thorough tier), never from inside the guard placement
+                    if (tagk == 0xE && (op >= 2 || place == 3 || (!tier && lvl != (op + place + seed) % 3))) continue;
+                    if (tagk != 0xE && !tier && lvl != (op + place + (unsigned)tagk + seed) % 3) continue;
+                    VpCase c; std::memset(&c, 0, sizeof c); c.op = op; c.s[0] = place; c.s[1] = (int64_t)((((tagk << 12) | 0x5A1) << 48) | (uint64_t)(64 + op * 5 + lvl)); c.s[2] = (op * 7 + lvl) % 64; c.s[3] = lvl;
+                    emit(&c, ctx);
+                }
+            }
             for (unsigned off = 0; off < 64; off += (tier ? 1 : (op < 2 ? 1 : 7)))
                 for (size_t n : ns) for (unsigned lvl = 0; lvl < 3; ++lvl) {
                     VpCase c; std::memset(&c, 0, sizeof c); c.op = op; c.s[0] = place; c.s[1] = (int64_t)(n | ((uint64_t)((seed + off) % 4096) << 20)); c.s[2] = off; c.s[3] = lvl;
